@@ -174,7 +174,7 @@ theorem postponed_fire_only_if_authenticated (c : Cfg) (s : Store) (op : Op) (e 
 /-- **If.**  Whenever `authenticate()` runs on key set `K` during a step — directly requested or in the
 cascade — every entry held at the start of the step under a sender key id in `K` is fetched in that
 step, or was *superseded*: removed a moment earlier in the same cascade because another fired entry
-carried the same verdict for the same key id (`removeKeysForPostponedTrustDecisions` compares
+(`e' ≠ e`) carried the same verdict for the same key id (`removeKeysForPostponedTrustDecisions` compares
 verdict and key id only).  Afterwards nothing is held under those sender ids, and each key of `K`
 is `Authenticated` or (if also distrusted in this step) `ManuallyDistrusted`. -/
 theorem postponed_fire_if_authenticated (c : Cfg) (s : Store) (op : Op) (K : List (Nat × Nat))
@@ -187,6 +187,18 @@ theorem postponed_fire_if_authenticated (c : Cfg) (s : Store) (op : Op) (K : Lis
   rcases step_good_or_quiet c s op with g | q
   · obtain ⟨a, b, _, d⟩ := g.auth K h; exact ⟨d, a, b⟩
   · exact absurd h (q.no_auth K)
+
+/-- **Exactly when.**  For an entry held at the start of a step and not superseded in it: it fires in
+this step if and only if `authenticate()` runs in this step on a key with its sender key id. -/
+theorem postponed_fire_iff_authenticated (c : Cfg) (s : Store) (op : Op) (e : Entry) (he : e ∈ s.postponed)
+    (hns : ¬ Superseded (stepStore c s op).2 e) :
+    Ev.fired e ∈ (stepStore c s op).2 ↔ ∃ K, Ev.auth K ∈ (stepStore c s op).2 ∧ e.sender ∈ K.map (·.2) := by
+  constructor
+  · intro h; exact (postponed_fire_only_if_authenticated c s op e h).2.2
+  · rintro ⟨K, hK, hs⟩
+    rcases (postponed_fire_if_authenticated c s op K hK).1 e he hs with h | h
+    · exact h
+    · exact absurd h hns
 
 /-- **The operation that authenticates, manual case.**  The public `makeTrustDecisions` asked to
 authenticate key `k` of `o` (not yet `Authenticated`): `authenticate()` runs on a set containing
@@ -405,6 +417,17 @@ example : (runStore ⟨0, 0⟩ {} [.setPolicy .toakafa, .seed 1 2 .autoTrusted, 
 example : (runStore ⟨0, 0⟩ {} [.message ⟨1, 1, 1, true, [⟨1, [2], []⟩]⟩, .message ⟨1, 1, 2, true, [⟨1, [3], [1]⟩]⟩,
       .manual 1 [1] []]).1.trust
     = [((1, 1), .manDistrusted), ((1, 2), .authenticated), ((1, 3), .authenticated)] := by decide
+/-- the hypotheses of `postponed_fire_iff_authenticated` are met (held, not superseded) and both sides hold -/
+example : (⟨1, 1, 2, true⟩ : Entry) ∈ (runStore ⟨0, 0⟩ {} [.message ⟨1, 1, 1, true, [⟨1, [2], []⟩]⟩]).1.postponed ∧
+    ¬ Superseded (stepStore ⟨0, 0⟩ (runStore ⟨0, 0⟩ {} [.message ⟨1, 1, 1, true, [⟨1, [2], []⟩]⟩]).1 (.manual 1 [1] [])).2
+        ⟨1, 1, 2, true⟩ := by
+  refine ⟨by decide, ?_⟩
+  rintro ⟨e', h1, h2, _⟩
+  have : (stepStore ⟨0, 0⟩ (runStore ⟨0, 0⟩ {} [.message ⟨1, 1, 1, true, [⟨1, [2], []⟩]⟩]).1 (.manual 1 [1] [])).2 =
+      [.auth [(1, 1)], .changed [(1, 1)], .fired ⟨1, 1, 2, true⟩, .auth [(1, 2)], .changed [(1, 2)]] := by decide
+  rw [this] at h1
+  simp at h1
+  exact h2 h1
 /-- supersession happens: two senders hold the same verdict for B:k3; when k1 is authenticated both entries go -/
 example : (runStore ⟨0, 0⟩ {} [.message ⟨1, 1, 1, true, [⟨1, [3], []⟩]⟩, .message ⟨1, 1, 2, true, [⟨1, [3], []⟩]⟩,
       .manual 1 [1] []]).1.postponed = [] := by decide
